@@ -4425,6 +4425,8 @@ func (stmt *SelectStmt) rearrangeOrdExps(groupByCols, orderByExps []*OrdExp) ([]
 		if ordExpsHasPrefix(groupByCols, orderByExps, stmt.Alias()) {
 			for i := range orderByExps {
 				groupByCols[i].descOrder = orderByExps[i].descOrder
+				// the merged sort key must keep NULLS FIRST/LAST as well
+				groupByCols[i].nullsOrder = orderByExps[i].nullsOrder
 			}
 			return groupByCols, nil
 		}
